@@ -219,3 +219,129 @@ pub fn extent(n: &Node, r: &Rendered) -> (usize, usize) {
     }
     (r.first_comment[n.first], r.tok_index[n.last] + 1)
 }
+
+
+// ---------------------------------------------------------------------------
+// SplSession: realisation of token-level and character-level edits on the canonical rendering
+// (one blank between tokens).
+
+pub fn join(spells: &[String]) -> (String, Vec<usize>) {
+    let mut text = String::new();
+    let mut starts = Vec::new();
+    for (i, s) in spells.iter().enumerate() {
+        if i > 0 {
+            text.push(' ');
+        }
+        starts.push(text.len());
+        text.push_str(s);
+    }
+    (text, starts)
+}
+
+/// byte range + replacement text for replacing tokens [i, j) by `repl` in the canonical rendering
+pub fn token_edit(spells: &[String], starts: &[usize], text: &str, i: usize, j: usize, repl: &[&str]) -> (std::ops::Range<usize>, String, Vec<String>) {
+    let n = spells.len();
+    let mut new_spells: Vec<String> = spells[..i].to_vec();
+    new_spells.extend(repl.iter().map(|s| s.to_string()));
+    new_spells.extend(spells[j..].iter().cloned());
+    // minimal textual edit in the canonical rendering
+    let start = if i < n { starts[i] } else { text.len() };
+    let end = if j < n { starts[j] } else { text.len() };
+    let mut ins = String::new();
+    for (k, r) in repl.iter().enumerate() {
+        if i >= n && (k > 0 || n > 0) {
+            ins.push(' ');
+        }
+        ins.push_str(r);
+        if i < n && (j < n || k + 1 < repl.len()) {
+            ins.push(' ');
+        }
+    }
+    let (start, end, ins) = if j >= n && i < n && repl.is_empty() {
+        // deleting the tail: also delete the blank before it
+        (if i > 0 { starts[i] - 1 } else { 0 }, text.len(), String::new())
+    } else if j >= n && i < n {
+        (starts[i], text.len(), repl.join(" "))
+    } else {
+        (start, end, ins)
+    };
+    (start..end, ins, new_spells)
+}
+
+
+/// One notification of a realised history: the changes (byte range in the text current at that change,
+/// inserted text) and the text afterwards.
+pub struct Step {
+    pub changes: Vec<(std::ops::Range<usize>, String)>,
+    pub text_after: String,
+    pub edits: Vec<serde_json::Value>,
+}
+
+/// Realise a HISTORY case of SplSession (base token spellings + edits) into concrete text changes.
+pub fn realise_history(case: &serde_json::Value) -> (String, Vec<Step>) {
+    let mut spells: Vec<String> = case["base"].as_array().cloned().unwrap_or_default().iter().map(|v| v.as_str().unwrap_or("").to_string()).collect();
+    let edits = case["edits"].as_array().cloned().unwrap_or_default();
+    let (mut text, mut starts) = join(&spells);
+    let base = text.clone();
+    let mut steps = Vec::new();
+    let mut k = 0usize;
+    while k < edits.len() {
+        let e = &edits[k];
+        let kind = e["kind"].as_str().unwrap_or("");
+        let mut changes = Vec::new();
+        let mut consumed = 1;
+        if kind == "tokens" {
+            let mut group = vec![e.clone()];
+            if e["c"] == "batch" && k + 1 < edits.len() && edits[k + 1]["kind"] == "tokens" {
+                group.push(edits[k + 1].clone());
+                consumed = 2;
+            }
+            for g in group {
+                let i = g["i"].as_u64().unwrap() as usize;
+                let j = g["j"].as_u64().unwrap() as usize;
+                let repl: Vec<String> = g["repl"].as_array().cloned().unwrap_or_default().iter().map(|v| v.as_str().unwrap_or("").to_string()).collect();
+                let rr: Vec<&str> = repl.iter().map(|s| s.as_str()).collect();
+                if i > j || j > spells.len() {
+                    eprintln!("history: edit outside the document");
+                    std::process::exit(2);
+                }
+                let (range, ins, ns) = token_edit(&spells, &starts, &text, i, j, &rr);
+                text.replace_range(range.clone(), &ins);
+                changes.push((range, ins));
+                spells = ns;
+                let j2 = join(&spells);
+                if j2.0 != text {
+                    eprintln!("harness: history token edit does not produce the canonical rendering");
+                    std::process::exit(2);
+                }
+                starts = j2.1;
+            }
+        } else if !spells.is_empty() {
+            let i = (e["i"].as_u64().unwrap() as usize).clamp(1, spells.len()) - 1;
+            let tok = &spells[i];
+            let kk = (e["k"].as_u64().unwrap_or(0) as usize).min(tok.chars().count().saturating_sub(1));
+            let at = starts[i] + tok.char_indices().nth(kk).map(|x| x.0).unwrap_or(0);
+            let c = crate::concretise_char(e["c"].as_str().unwrap_or("x")).to_string();
+            let (range, ins) = match kind {
+                "split" => (at..at, " ".to_string()),
+                "join" => {
+                    if i + 1 < spells.len() {
+                        (starts[i + 1] - 1..starts[i + 1], String::new())
+                    } else {
+                        (at..at, String::new())
+                    }
+                }
+                "insert" => (at..at, c),
+                _ => {
+                    let len = tok[at - starts[i]..].chars().next().map(|ch| ch.len_utf8()).unwrap_or(0);
+                    (at..at + len, String::new())
+                }
+            };
+            text.replace_range(range.clone(), &ins);
+            changes.push((range, ins));
+        }
+        steps.push(Step { changes, text_after: text.clone(), edits: edits[k..k + consumed].to_vec() });
+        k += consumed;
+    }
+    (base, steps)
+}
